@@ -13,10 +13,20 @@ impl<T> Atomic<T> {
     }
 
     pub(crate) fn load<'g>(&self, ordering: Ordering, guard: &'g Guard<'_>) -> Shared<'g, T> {
+        #[cfg(flurry_verif)]
+        let _seam = verif_seam::ptr(&self.0, crate::verif::Kind::Load, ordering, Some(guard));
         guard.protect(&self.0, ordering).into()
     }
 
+    /// Plain load that bypasses the verification seam (inspector only).
+    #[cfg(flurry_verif)]
+    pub(crate) fn load_unhooked<'g>(&self, guard: &'g Guard<'_>) -> Shared<'g, T> {
+        guard.protect(&self.0, Ordering::SeqCst).into()
+    }
+
     pub(crate) fn store(&self, new: Shared<'_, T>, ordering: Ordering) {
+        #[cfg(flurry_verif)]
+        let _seam = verif_seam::ptr(&self.0, crate::verif::Kind::Store, ordering, None);
         self.0.store(new.ptr, ordering);
     }
 
@@ -30,6 +40,8 @@ impl<T> Atomic<T> {
         ord: Ordering,
         _: &'g Guard<'_>,
     ) -> Shared<'g, T> {
+        #[cfg(flurry_verif)]
+        let _seam = verif_seam::ptr(&self.0, crate::verif::Kind::Swap, ord, None);
         self.0.swap(new.ptr, ord).into()
     }
 
@@ -41,6 +53,10 @@ impl<T> Atomic<T> {
         failure: Ordering,
         _: &'g Guard<'_>,
     ) -> Result<Shared<'g, T>, CompareExchangeError<'g, T>> {
+        #[cfg(flurry_verif)]
+        let mut _seam = verif_seam::cas(&self.0, success, failure);
+        #[cfg(flurry_verif)]
+        _seam.outcome(self.0.load(Ordering::Relaxed) == current.ptr);
         match self
             .0
             .compare_exchange(current.ptr, new.ptr, success, failure)
@@ -62,6 +78,8 @@ impl<T> From<Shared<'_, T>> for Atomic<T> {
 
 impl<T> Clone for Atomic<T> {
     fn clone(&self) -> Self {
+        #[cfg(flurry_verif)]
+        let _seam = verif_seam::ptr(&self.0, crate::verif::Kind::Load, Ordering::Relaxed, None);
         Atomic(self.0.load(Ordering::Relaxed).into())
     }
 }
@@ -149,6 +167,8 @@ pub(crate) trait RetireShared {
 
 impl RetireShared for Guard<'_> {
     unsafe fn retire_shared<T>(&self, shared: Shared<'_, T>) {
+        #[cfg(flurry_verif)]
+        verif_seam::retire(shared.ptr as usize, self);
         self.defer_retire(shared.ptr, seize::reclaim::boxed::<Linked<T>>);
     }
 }
@@ -166,5 +186,74 @@ impl<'g> Deref for GuardRef<'g> {
         match *self {
             GuardRef::Owned(ref guard) | GuardRef::Ref(&ref guard) => guard,
         }
+    }
+}
+
+/// Reports pointer-cell accesses to the verification hooks (`--cfg flurry_verif` only).
+#[cfg(flurry_verif)]
+pub(crate) mod verif_seam {
+    use super::Guard;
+    use crate::verif::{access, event, guard_info, Access, Ev, Kind, Loc};
+    use std::sync::atomic::{AtomicPtr, Ordering};
+
+    /// Reports the access before it happens when created and after it happened when dropped.
+    pub(crate) struct Seam(Access);
+
+    impl Seam {
+        pub(crate) fn outcome(&mut self, ok: bool) {
+            self.0.ok = ok;
+        }
+    }
+
+    impl Drop for Seam {
+        fn drop(&mut self) {
+            self.0.done = true;
+            access(self.0);
+        }
+    }
+
+    pub(crate) fn ptr<T>(
+        cell: &AtomicPtr<T>,
+        kind: Kind,
+        ord: Ordering,
+        guard: Option<&Guard<'_>>,
+    ) -> Seam {
+        let (collector, protected) = match guard {
+            Some(g) => guard_info(g),
+            None => (usize::MAX, false),
+        };
+        let a = Access {
+            addr: cell as *const AtomicPtr<T> as usize,
+            loc: Loc::Ptr,
+            kind,
+            ord,
+            ord_fail: ord,
+            collector,
+            protected,
+            done: false,
+            ok: true,
+        };
+        access(a);
+        Seam(a)
+    }
+
+    pub(crate) fn cas<T>(cell: &AtomicPtr<T>, success: Ordering, failure: Ordering) -> Seam {
+        let a = Access {
+            addr: cell as *const AtomicPtr<T> as usize,
+            loc: Loc::Ptr,
+            kind: Kind::Cas,
+            ord: success,
+            ord_fail: failure,
+            collector: usize::MAX,
+            protected: false,
+            done: false,
+            ok: true,
+        };
+        access(a);
+        Seam(a)
+    }
+
+    pub(crate) fn retire(addr: usize, guard: &Guard<'_>) {
+        event(Ev::Retire, addr, guard_info(guard).0);
     }
 }
